@@ -19,7 +19,8 @@ BOUNDS = {'quick': 'shape layer: padded length N+2p <= 8 (9 for L=3), both centr
 OUTSIDE = 'longer signals; numerics of the real FIR filter / Hilbert amplitude / dual-threshold detector (arbitrary outputs of the right length instead); IEEE rounding of sample arithmetic'
 STUBS = ['filter_signal -> arbitrary reals', 'amp_by_time -> arbitrary reals >= 0', 'detect_bursts_dual_threshold -> arbitrary booleans',
          'compute_filter_length -> L in {0 (pad=False), 1, 3}; ValueError if both/neither n_cycles, n_seconds']
-ASSUMPTIONS = ['paths on which the filtered signal has fewer than 2 closed half-waves of either kind are cut (bycycle raises there; the statement does not apply)',
+ASSUMPTIONS = ['0 <= boundary <= N + 1 (any larger boundary drops every extremum, like N + 1)',
+               'paths on which the filtered signal has fewer than 2 closed half-waves of either kind are cut (bycycle raises there; the statement does not apply)',
                '"at least three full oscillations" is read as: >= 3 positive and >= 3 negative half-waves of the filtered signal, closed by zero-crossings on both sides, lying inside (boundary, N - boundary)']
 
 
@@ -179,6 +180,7 @@ def run(ctx, cfg):
     x = [ctx.real('x%d' % i) for i in range(n)]
     boundary = ctx.integer('boundary')
     ctx.assume(boundary >= 0)
+    ctx.assume(boundary <= n + 1)      # larger values drop every extremum alike
     st = pipe.Stubs(ctx, L, min_halfwaves=2, pattern=cfg.get('pattern'))
     sig = np.array(list(x), dtype=float)
     fek = {'boundary': boundary, 'pad': L > 0}
